@@ -198,12 +198,15 @@ def _load_known():
         return []
 
 
-def _env():
+def _env(mod=None):
     env = dict(os.environ)
     env['PYTHONPATH'] = f'{REPO_DIR}:{VERIF_DIR}'
     env['SCARED_VERIF'] = '1'
     env['PYTHONHASHSEED'] = '0'
-    env.setdefault('NUMBA_NUM_THREADS', '16')
+    # many workers run side by side: keep the per-process thread pools small unless the property sweeps them
+    env['NUMBA_NUM_THREADS'] = str(getattr(mod, 'NUMBA_THREADS', 4))
+    for v in ('OPENBLAS_NUM_THREADS', 'MKL_NUM_THREADS', 'OMP_NUM_THREADS'):
+        env[v] = str(getattr(mod, 'BLAS_THREADS', 2))
     env['PYTHONWARNINGS'] = 'ignore'
     return env
 
@@ -229,7 +232,7 @@ def _run_workers(prop, indexed, nworkers, budget_s, watchdog_s, tmpdir):
             open(opath, 'w').close()
             err = open(os.path.join(tmpdir, f'err_{generation}_{w}.txt'), 'w')
             p = subprocess.Popen([sys.executable, '-m', 'vf.core', '--worker', prop, cpath, opath, repr(deadline)],
-                                 cwd=VERIF_DIR, env=_env(), stdout=err, stderr=err, start_new_session=True)
+                                 cwd=VERIF_DIR, env=_env(importlib.import_module(f'vf.props.{prop.lower()}')), stdout=err, stderr=err, start_new_session=True)
             procs.append((p, chunk, opath, err))
         pending = []
         for p, chunk, opath, err in procs:
